@@ -230,6 +230,9 @@ func runC13(r *R) {
 			r.Check(!leak && len(avoid) > 0, "C13-R4", fn, "Lock "+key, in.Pos(), "released on every path", "an inode lock can be left held at function exit (later operations on this inode block forever)")
 		})
 		throttlePairRule(r, "C13-R4", fn, exits)
+		if fn.Parent() == nil && len(CallsIn(fn, "(*"+arv+".throttle).Acquire")) > 0 {
+			throttleBeforeLockRule(r, "C13-R4", fn)
+		}
 	}
 
 	// ---- R5
@@ -469,6 +472,34 @@ func flushSwapRules(r *R, ruleSwap, ruleCOW string) {
 		r.Check(cleared, ruleCOW, fn, "me.flushing = nil on reallocation", fn.Pos(), "token cleared when the buffer is replaced", "buffer replaced without clearing the flushing token")
 	}
 
+}
+
+// throttleBeforeLockRule: in a flush goroutine the throttle token is given back before the goroutine waits for an inode
+// lock (the spawning writer may hold that lock while it waits for a token).
+func throttleBeforeLockRule(r *R, rule string, outer *ssa.Function) {
+	lc := inodeLockClass(map[string]int{})
+	for _, cl := range Closures(outer) {
+		rels := CallsIn(cl, "(*"+arv+".throttle).Release")
+		if len(rels) == 0 {
+			continue
+		}
+		for _, l := range CallsMatching(cl, func(n string, c *ssa.CallCommon) bool { return lc.Classify(c) > 0 }) {
+			ok := true
+			for _, rel := range rels {
+				if _, isDefer := rel.(*ssa.Defer); isDefer {
+					ok = false // runs at exit, i.e. after the lock was taken
+				}
+			}
+			if ok {
+				var thr []ssa.Instruction
+				for _, rel := range rels {
+					thr = append(thr, rel.(ssa.Instruction))
+				}
+				ok = MustPassFromEntry(cl, l.(ssa.Instruction), thr)
+			}
+			r.Check(ok, rule, cl, "throttle.Release() before inode Lock()", l.Pos(), "token returned before waiting for the file lock", "the flush goroutine waits for the file lock while still holding its throttle token: a writer that holds that lock and waits for a token deadlocks with it once all tokens are out")
+		}
+	}
 }
 
 // throttlePairRule: every throttle token acquired in fn is handed to a goroutine that releases it on every path (shared by C13 and C09).
